@@ -24,6 +24,7 @@ ASSUMPTIONS = ["points of discontinuity are not judged: sign(0), d|x|/dx at 0, n
 
 GRID = [-2.0, -0.5, 0.0, 0.5, 1.0, 3.0]
 PVAL = 1.5
+PVALS = [1.5, 2.5]
 BIN = ["add", "sub", "mul", "div", "pow"]
 UN = ["neg", "abs", "sign", "exp", "log", "sin", "cos", "tan", "asin", "acos", "atan"]
 
@@ -166,7 +167,31 @@ def has_const_subtree(t):
 
 
 # ------------------------------------------------------------------------------------------------ library builder
-def lib_build(t, X, Y, P):
+def lib_build(t, X, Y, P, memo=None):
+    """memo: build equal non-leaf sub-trees ONCE and reuse the library object (a shared sub-expression, i.e. a DAG)"""
+    if memo is not None and t[0] not in ("x", "y", "p", "c"):
+        if t not in memo:
+            memo[t] = _lib_build(t, X, Y, P, memo)
+        return memo[t]
+    return _lib_build(t, X, Y, P, memo)
+
+
+def has_repeat(t):
+    seen, dup = set(), [False]
+
+    def walk(s):
+        if s[0] in ("x", "y", "p", "c"):
+            return
+        if s in seen:
+            dup[0] = True
+        seen.add(s)
+        for c in s[1:]:
+            walk(c)
+    walk(t)
+    return dup[0]
+
+
+def _lib_build(t, X, Y, P, memo=None):
     from wntr.sim.aml import expr as E
     k = t[0]
     if k == "x":
@@ -178,7 +203,7 @@ def lib_build(t, X, Y, P):
     if k == "c":
         return t[1]
     if k in BIN:
-        a, b = lib_build(t[1], X, Y, P), lib_build(t[2], X, Y, P)
+        a, b = lib_build(t[1], X, Y, P, memo), lib_build(t[2], X, Y, P, memo)
         if k == "add":
             return a + b
         if k == "sub":
@@ -188,7 +213,7 @@ def lib_build(t, X, Y, P):
         if k == "div":
             return a / b
         return a ** b
-    a = lib_build(t[1], X, Y, P)
+    a = lib_build(t[1], X, Y, P, memo)
     if k == "neg":
         return -a
     return getattr(E, k)(a)
@@ -271,7 +296,10 @@ def check_batch(trs):
         if _folds_to_number(t):
             counts["skipped_folds_to_number"] = counts.get("skipped_folds_to_number", 0) + 1
             continue
-        live.append(t)
+        live.append((t, False))
+        if has_repeat(t):
+            live.append((t, True))      # the same tree with its repeated sub-trees built once and shared
+            counts["shared_subexpression_variants"] = counts.get("shared_subexpression_variants", 0) + 1
     if not live:
         return {"viol": [], "counts": counts, "nontrivial": 0}
     res = _eval_model(live, counts)
@@ -319,8 +347,8 @@ def _eval_model(live, counts, single=False):
     cons = []
     try:
         m.c = aml.ConstraintDict()
-        for i, t in enumerate(live):
-            e = lib_build(t, X, Y, P)
+        for i, (t, shared) in enumerate(live):
+            e = lib_build(t, X, Y, P, {} if shared else None)
             c = aml.Constraint(e)
             m.c[i] = c
             cons.append(c)
@@ -336,20 +364,24 @@ def _eval_model(live, counts, single=False):
         if not single:
             return None
         import traceback
-        return {"tree": live[0], "key": "build-fails:%s" % type(e).__name__,
-                "what": "building / registering the valid expression %s raised %s: %s" % (show(live[0]), type(e).__name__, str(e)[:120]),
+        return {"tree": live[0][0], "shared": live[0][1], "key": "%sbuild-fails:%s" % ("shared:" if live[0][1] else "", type(e).__name__),
+                "what": "building / registering the valid expression %s raised %s: %s" % (show(live[0][0]), type(e).__name__, str(e)[:120]),
                 "detail": traceback.format_exc()[-1500:]}
     viol = []
     defined = [False] * len(live)
-    for xv in GRID:
-        for yv in GRID:
+    for pv, xv, yv in [(pv_, x_, y_) for pv_ in PVALS for x_ in GRID for y_ in GRID]:
+        if True:
+            pcur = pv
+            tagp = "" if pv == PVALS[0] else "param-changed:"
+            P.value = pv          # the parameter changes AFTER the constraints were registered and compiled
             X.value, Y.value = xv, yv
             r = m.evaluate_residuals()
             Jm = m.evaluate_jacobian().toarray()
             if len(r) != len(live) + 1:
                 viol.append({"key": "residual-length", "what": "residual vector has %d entries for %d constraints" % (len(r), len(live) + 1)})
                 return viol
-            for i, t in enumerate(live):
+            for i, (t, shared) in enumerate(live):
+                tag = ("shared:" if shared else "") + tagp
                 # the compiled program and the library's own direct evaluation run the same operations in the same order:
                 # wherever both are finite they must agree (this also judges sign(0), |0| and points outside the reference domain)
                 try:
@@ -358,12 +390,12 @@ def _eval_model(live, counts, single=False):
                     if math.isfinite(dv_) and math.isfinite(cv_) and abs(dv_) < 1e100:
                         counts["compiled_vs_direct"] = counts.get("compiled_vs_direct", 0) + 1
                         if abs(dv_ - cv_) > 1e-9 * max(abs(dv_), abs(cv_)) + 1e-12:
-                            viol.append({"tree": t, "key": "compiled-vs-direct:%s" % _shape(t), "what": "%s at x=%g y=%g p=%g: compiled residual %.12g, Constraint.evaluate() %.12g" % (show(t), xv, yv, PVAL, cv_, dv_)})
+                            viol.append({"tree": t, "shared": shared, "key": tag + "compiled-vs-direct:%s" % _shape(t), "what": "%s at x=%g y=%g p=%g: compiled residual %.12g, Constraint.evaluate() %.12g" % (show(t), xv, yv, pcur, cv_, dv_)})
                 except Exception:  # noqa - direct evaluation outside its domain raises; nothing to compare
                     pass
                 try:
                     MAG[0] = 0.0
-                    v, dx, dy, _ = ref_eval(t, xv, yv, PVAL)
+                    v, dx, dy, _ = ref_eval(t, xv, yv, pcur)
                     mag = MAG[0]
                 except (Undefined, ZeroDivisionError, ValueError, OverflowError):
                     counts["points_undefined"] += 1
@@ -376,12 +408,12 @@ def _eval_model(live, counts, single=False):
                 row = cons[i].index
                 got = r[row]
                 if not close(got, v, mag):
-                    viol.append({"tree": t, "key": "residual:%s" % _shape(t), "what": "%s at x=%g y=%g p=%g: compiled residual %.12g, true value %.12g" % (show(t), xv, yv, PVAL, got, v)})
+                    viol.append({"tree": t, "shared": shared, "key": tag + "residual:%s" % _shape(t), "what": "%s at x=%g y=%g p=%g: compiled residual %.12g, true value %.12g" % (show(t), xv, yv, pcur, got, v)})
                     continue
                 try:
                     direct = cons[i].evaluate()
                     if not close(direct, v, mag):
-                        viol.append({"tree": t, "key": "direct-eval:%s" % _shape(t), "what": "%s at x=%g y=%g: Constraint.evaluate() %.12g, true value %.12g" % (show(t), xv, yv, direct, v)})
+                        viol.append({"tree": t, "shared": shared, "key": tag + "direct-eval:%s" % _shape(t), "what": "%s at x=%g y=%g: Constraint.evaluate() %.12g, true value %.12g" % (show(t), xv, yv, direct, v)})
                 except Exception:  # noqa - direct evaluation is a cross-check only
                     pass
                 for var, d, nm in ((X, dx, "x"), (Y, dy, "y")):
@@ -390,7 +422,7 @@ def _eval_model(live, counts, single=False):
                     gj = Jm[row, var.index]
                     counts["jac_entries_judged"] += 1
                     if not close(gj, d, mag):
-                        viol.append({"tree": t, "key": "jacobian:%s" % _shape(t), "what": "%s at x=%g y=%g p=%g: compiled d/d%s = %.12g, true derivative %.12g" % (show(t), xv, yv, PVAL, nm, gj, d)})
+                        viol.append({"tree": t, "shared": shared, "key": tag + "jacobian:%s" % _shape(t), "what": "%s at x=%g y=%g p=%g: compiled d/d%s = %.12g, true derivative %.12g" % (show(t), xv, yv, pcur, nm, gj, d)})
                         break
     counts["trees"] += sum(defined)
     # keep one violation per key
